@@ -78,6 +78,12 @@ func c16One(res *vlib.Result, si, enc, integ, ci, vc, life, ver, dir, tag int) {
 		tg = "claimtag"
 	}
 	opts.Tag = tg
+	// commands mapped in addition to the claim's own list: numbers whose decimal form is a piece of
+	// the list's text ("44" and "4" inside "443,444"), and an unrelated one
+	extra := []int{44, 4, 60021}
+	if vc >= 1 {
+		opts.ExtraValidCommands = extra
+	}
 	const importerAddr = "<10.9.9.9:7777>"
 	opts.PeerAddr = importerAddr // the minter will also dial the importer BY COMMAND
 	mc, err := security.MintClaimSession(M, opts)
@@ -103,7 +109,11 @@ func c16One(res *vlib.Result, si, enc, integ, ci, vc, life, ver, dir, tag int) {
 	} else if again, err := security.ExportSecSessionInfo(pol); err != nil || again != cid.SecSessionInfo() {
 		res.Violate("C16/session-info-not-fixed-point", "%s: %q -> %q (%v)", id, cid.SecSessionInfo(), again, err)
 	}
-	isid, err := security.ImportClaimSession(I, claim, security.ClaimSessionOptions{PeerAddr: c16Sinfuls[si], Tag: tg})
+	iopts := security.ClaimSessionOptions{PeerAddr: c16Sinfuls[si], Tag: tg}
+	if vc >= 1 {
+		iopts.ExtraValidCommands = extra
+	}
+	isid, err := security.ImportClaimSession(I, claim, iopts)
 	if err != nil {
 		res.Violate("C16/import-error", "%s: %v", id, err)
 		return
@@ -196,21 +206,28 @@ func c16One(res *vlib.Result, si, enc, integ, ci, vc, life, ver, dir, tag int) {
 		if dir == 1 {
 			cliCache, srvCache, peer, label = M, I, importerAddr, "minter-dials-by-command"
 		}
-		cc := baseCfg(security.SecurityOptional, security.SecurityOptional, nil, []security.CryptoMethod{security.CryptoAES}, false)
-		cc.SessionCache, cc.Command, cc.SecurityTag, cc.PeerName = cliCache, 443, tg, peer
-		sc := baseCfg(security.SecurityOptional, security.SecurityOptional, nil, []security.CryptoMethod{security.CryptoAES}, true)
-		sc.SessionCache = srvCache
-		r := hsRun(hsOpts{ClientCfg: cc, ServerCfg: sc, App: true})
-		res.Transitions++
-		if r.S.Neg != nil && r.S.Neg.SessionId != sid {
-			security.GetSessionCache().Invalidate(r.S.Neg.SessionId)
+		cmds := []int{443}
+		if (si+enc+integ+ci+life+ver)%3 == 0 {
+			cmds = append(cmds, extra...) // the additionally mapped commands route to the claim session too
 		}
-		if r.C.Err != nil || r.S.Err != nil || !r.C.Resumed || !r.S.Resumed || r.C.Neg.SessionId != sid {
-			gotSid := ""
-			if r.C.Neg != nil {
-				gotSid = r.C.Neg.SessionId
+		for _, byCmd := range cmds {
+			cc := baseCfg(security.SecurityOptional, security.SecurityOptional, nil, []security.CryptoMethod{security.CryptoAES}, false)
+			cc.SessionCache, cc.Command, cc.SecurityTag, cc.PeerName = cliCache, byCmd, tg, peer
+			sc := baseCfg(security.SecurityOptional, security.SecurityOptional, nil, []security.CryptoMethod{security.CryptoAES}, true)
+			sc.SessionCache = srvCache
+			label := fmt.Sprintf("%s/cmd=%d", label, byCmd)
+			r := hsRun(hsOpts{ClientCfg: cc, ServerCfg: sc, App: true})
+			res.Transitions++
+			if r.S.Neg != nil && r.S.Neg.SessionId != sid {
+				security.GetSessionCache().Invalidate(r.S.Neg.SessionId)
 			}
-			res.Violate("C16/by-command-not-resumed/"+label, "%s: a connection for a valid command of the claim did not resume the claim session (client %s server %s resumed %v/%v session %q)", id, errStr(r.C.Err), errStr(r.S.Err), r.C.Resumed, r.S.Resumed, gotSid)
+			if r.C.Err != nil || r.S.Err != nil || !r.C.Resumed || !r.S.Resumed || r.C.Neg.SessionId != sid {
+				gotSid := ""
+				if r.C.Neg != nil {
+					gotSid = r.C.Neg.SessionId
+				}
+				res.Violate("C16/by-command-not-resumed/"+label, "%s: a connection for a valid command of the claim did not resume the claim session (client %s server %s resumed %v/%v session %q)", id, errStr(r.C.Err), errStr(r.S.Err), r.C.Resumed, r.S.Resumed, gotSid)
+			}
 		}
 	}
 	res.Outcome("ok")
@@ -362,7 +379,7 @@ func c16History(res *vlib.Result, hist []string) {
 func C16Plan() *vlib.Plan {
 	p := &vlib.Plan{
 		Property: "C16", Level: "exploration",
-		Rule:   "E-ENUM full product: sinful in {plain, with params, with sock=, with embedded '#', bracketed IPv6, with '#[' inside} x Encryption/Integrity in {unset, true, false}^2 x cipher list in {'', AES, AESGCM, 'AES,BLOWFISH', 'AES,3DES,BLOWFISH'} x ValidCommands in {none, [443], [443,444]} x lifetime in {0, 60 s, 20 years, 100 years (expiry beyond 2^31-1 s)} x version in {'', long, short} x direction (importer dials / minter dials) x tag; each pair: cache entries compared (id, key, Encryption/Integrity/cipher/commands, expiry), public form searched for the secret, policy text render/parse fixed point, then a real resumption handshake (no negotiation on the wire) with ping/pong both ways, by session id and - when the claim lists commands - by command (the dialer's cache must route tag, peer address and command to the claim session). Plus, for every position of the secret, its replacement by up to 7 substitutes (another digit, the same letter in the other case, the next character, a non-hex letter, an upper-case hex letter, a blank) in both directions, and every history of <= 3 (thorough 4) imports into ONE importer cache over {intact id, id with the first / last secret character altered, intact id of a second claim}: whenever the last import of the claim is the intact id, key and expiry must equal the minter's and resumption must work both ways. Plus the library client (client.ConnectAndAuthenticateWithConfig) over loopback sockets: 8 address templates x {direct, scripted shared_port front end} x direction x tag, by command: the claim session is resumed with ping/pong. Non-trivial = mint succeeded; ids distinct by construction.",
+		Rule:   "E-ENUM full product: sinful in {plain, with params, with sock=, with embedded '#', bracketed IPv6, with '#[' inside} x Encryption/Integrity in {unset, true, false}^2 x cipher list in {'', AES, AESGCM, 'AES,BLOWFISH', 'AES,3DES,BLOWFISH'} x ValidCommands in {none, [443], [443,444]} x lifetime in {0, 60 s, 20 years, 100 years (expiry beyond 2^31-1 s)} x version in {'', long, short} x direction (importer dials / minter dials) x tag; each pair: cache entries compared (id, key, Encryption/Integrity/cipher/commands, expiry), public form searched for the secret, policy text render/parse fixed point, then a real resumption handshake (no negotiation on the wire) with ping/pong both ways, by session id and - when the claim lists commands - by command (the dialer's cache must route tag, peer address and command to the claim session), for the claim's own commands and for additionally mapped ones (ExtraValidCommands 44, 4, 60021 next to a list '443,444'). Plus, for every position of the secret, its replacement by up to 7 substitutes (another digit, the same letter in the other case, the next character, a non-hex letter, an upper-case hex letter, a blank) in both directions, and every history of <= 3 (thorough 4) imports into ONE importer cache over {intact id, id with the first / last secret character altered, intact id of a second claim}: whenever the last import of the claim is the intact id, key and expiry must equal the minter's and resumption must work both ways. Plus the library client (client.ConnectAndAuthenticateWithConfig) over loopback sockets: 8 address templates x {direct, scripted shared_port front end} x direction x tag, by command: the claim session is resumed with ping/pong. Non-trivial = mint succeeded; ids distinct by construction.",
 		Assume: []string{"peer caches are private per case (no process-global state involved)"},
 	}
 	p.Gen = func(tier string, yield func(vlib.Case)) {
